@@ -657,6 +657,41 @@ func (s *subject) get(k []byte) {
 	}
 }
 
+// getReusedBuffer: the probes once more, ordered by length, all through ONE scratch buffer that is
+// overwritten after every call (Get must depend on the probe's bytes only).
+func (s *subject) getReusedBuffer(probes [][]byte) {
+	sess := append([][]byte{}, probes...)
+	sort.SliceStable(sess, func(i, j int) bool { return len(sess[i]) < len(sess[j]) })
+	maxLen := 0
+	for _, k := range sess {
+		if len(k) > maxLen {
+			maxLen = len(k)
+		}
+	}
+	scratch := make([]byte, maxLen+1)
+	for _, k := range sess {
+		copy(scratch, k)
+		probe := scratch[:len(k)]
+		var v uint32
+		var ok bool
+		s.c.Guard("get "+hx(k), func() string {
+			v, ok = s.t.Get(probe)
+			return showOpt(v, ok)
+		})
+		for i := range scratch {
+			scratch[i] ^= 0x5a
+		}
+		ev, eok := s.m.get(k)
+		if ok != eok || (ok && v != ev) {
+			if len(s.m.keys) == 1 && bytes.Equal(s.m.keys[0], []byte{0xff}) && len(k) == 0 && ok {
+				s.fail(keyGetFF, "keys=1 Get(-) = %s", showOpt(v, ok))
+				continue
+			}
+			s.fail("get-mismatch", "keys=%d Get(%s) through a reused probe buffer = %s, sorted map says %s", len(s.m.keys), hx(k), showOpt(v, ok), showOpt(ev, eok))
+		}
+	}
+}
+
 func (s *subject) lget(k []byte) {
 	s.c.Guard("lget "+hx(k), func() string {
 		v, ok := s.t.Get(k)
@@ -971,6 +1006,7 @@ func (s *subject) queries(r *rand.Rand, probes [][]byte) {
 			s.lget(k)
 		}
 	}
+	s.getReusedBuffer(probes)
 	s.iterAll("iter")
 	if s.full {
 		s.iterAll("liter")
@@ -1587,6 +1623,50 @@ func (s *bucketSubject) queries(r *rand.Rand, probes [][]byte) {
 			c.Fail(keyGetFF, fmt.Sprintf("[%s] GetValue(-)=%s: a trie of the bucket holds the single key ff", s.tag, showOpt(v, ok)))
 		} else if ok != eok || (ok && v != ev) {
 			c.Fail("bucket-get-mismatch", fmt.Sprintf("[%s] GetValue(%s)=%s, union says %s", s.tag, hx(k), showOpt(v, ok), showOpt(ev, eok)))
+		}
+	}
+	// the same lookups through ONE reused probe buffer (the write path resolves tag values out of a
+	// recycled block): a lookup's answer must depend on the probe's BYTES only, not on the memory they sit
+	// in nor on earlier lookups. Equal-length keys follow each other, present after present, absent after
+	// present; the buffer is overwritten after every call.
+	{
+		sess := make([][]byte, 0, len(probes)+24)
+		sess = append(sess, probes...)
+		for i := 0; i < 24 && len(all) > 0; i++ {
+			sess = append(sess, all[r.Intn(len(all))].k)
+		}
+		r.Shuffle(len(sess), func(i, j int) { sess[i], sess[j] = sess[j], sess[i] })
+		sort.SliceStable(sess, func(i, j int) bool { return len(sess[i]) < len(sess[j]) })
+		maxLen := 0
+		for _, k := range sess {
+			if len(k) > maxLen {
+				maxLen = len(k)
+			}
+		}
+		scratch := make([]byte, maxLen+1)
+		for _, k := range sess {
+			copy(scratch, k)
+			probe := scratch[:len(k)]
+			var v uint32
+			var ok bool
+			c.Guard("bget "+hx(k), func() string {
+				v, ok = s.b.GetValue(probe)
+				return showOpt(v, ok)
+			})
+			for i := range scratch { // the caller recycles the memory
+				scratch[i] ^= 0x5a
+			}
+			ev, eok := s.all[string(k)]
+			if ffv, has := s.all["\xff"]; len(k) == 0 && !eok && ok && has && v == ffv && s.singleFF {
+				c.Fail(keyGetFF, fmt.Sprintf("[%s] GetValue(-)=%s: a trie of the bucket holds the single key ff", s.tag, showOpt(v, ok)))
+			} else if ok != eok || (ok && v != ev) {
+				c.Fail("bucket-get-mismatch", fmt.Sprintf("[%s] GetValue(%s) through a reused probe buffer =%s, union says %s", s.tag, hx(k), showOpt(v, ok), showOpt(ev, eok)))
+			}
+			if eok {
+				c.Branch("bucket-get-reused-buffer-present")
+			} else {
+				c.Branch("bucket-get-reused-buffer-absent")
+			}
 		}
 	}
 	// all values
